@@ -3966,7 +3966,7 @@ func CloneExpr(expr Expr) Expr {
 	case *ParenExpr:
 		return &ParenExpr{Expr: CloneExpr(expr.Expr)}
 	case *RegexLiteral:
-		return &RegexLiteral{Val: expr.Val}
+		return CloneRegexLiteral(expr)
 	case *StringLiteral:
 		return &StringLiteral{Val: expr.Val}
 	case *TimeLiteral:
